@@ -20,6 +20,7 @@ import math
 import multiprocessing as mp
 import os
 import random
+import signal
 import tempfile
 
 from . import c11, common, tlc
@@ -288,6 +289,17 @@ def make_scenarios(ctx, od):
 # ----------------------------------------------------------------------------------------------
 # running one scenario on the real code
 # ----------------------------------------------------------------------------------------------
+class _TrialTimeout(BaseException):
+    """A trial of the real study did not finish within TRIAL_TIMEOUT_S (BaseException: optuna must not catch it)."""
+
+
+TRIAL_TIMEOUT_S = 120
+
+
+def _alarm(signum, frame):
+    raise _TrialTimeout()
+
+
 def same(a, b) -> int:
     """Bit-identity of two real Python values (floats by bit pattern, everything else by type and ==)."""
     if isinstance(a, float) and isinstance(b, float) and not isinstance(a, bool) and not isinstance(b, bool):
@@ -424,10 +436,18 @@ def run_scenario(sc: dict) -> list:
         if plan["enqueue"]:
             study.enqueue_trial(dict(plan["enqueue"]))
         n_before = len(study.trials)
+        signal.signal(signal.SIGALRM, _alarm)
+        signal.alarm(TRIAL_TIMEOUT_S)
         try:
             study.optimize(objective, n_trials=1)
+        except _TrialTimeout:
+            out.append({"ev": [], "meta": {"sid": sc["sid"], "trial": len(out), "sampler": sc["sampler"],
+                                           "storage": sc["storage"], "timeout": True}})
+            break              # the study is in an unknown state: stop this scenario
         except Exception as ex:  # noqa
             rec.setdefault("exception", f"{type(ex).__name__}: {ex}"[:300])
+        finally:
+            signal.alarm(0)
         if "received" not in rec and "exception" not in rec:
             continue            # the sampler stopped the study (exhaustive samplers): nothing to judge
         fixed_obs = {nm: c11.obs(v, decl[nm], params[nm]["K"]) for nm, v in (plan["enqueue"] or {}).items() if nm in params}
@@ -503,9 +523,26 @@ def execute(scs, workers=16):
         if err:
             raise tlc.MachineryError(f"scenario {json.dumps(sc, default=str)[:600]} failed in the harness:\n{err}")
         for r in recs:
+            if r["meta"].get("timeout"):
+                TIMEOUTS.append({"scenario": sc, "trial": r["meta"]["trial"]})
+                continue
             traces.append({"tid": len(traces) + 1, "ev": r["ev"]})
             metas.append(r["meta"])
     return traces, metas
+
+
+TIMEOUTS: list = []
+
+
+def check_timeouts(ctx):
+    """A trial that never returned is not a verdict by itself (the machine may be overloaded): machinery failure,
+    unless the run already has violations to report."""
+    if TIMEOUTS:
+        ctx.notes["trials_timed_out"] = len(TIMEOUTS)
+        if not ctx.violations:
+            t = TIMEOUTS[0]
+            raise tlc.MachineryError(f"{len(TIMEOUTS)} trial(s) did not finish within {TRIAL_TIMEOUT_S}s, first: trial "
+                                     f"#{t['trial']} of {json.dumps(t['scenario'], default=str)[:700]}")
 
 
 def judge(ctx, scs, traces, metas, label):
@@ -558,6 +595,7 @@ def run(ctx):
         ctx.count_case([m["sampler"]] + t["ev"], nontrivial=any(e["a"] == "suggest" and e["same"] == -1 and e["fx"] == -1
                                                                   for e in t["ev"]))
     v = judge(ctx, scs, traces, metas, "trials")
+    check_timeouts(ctx)
     per = branch_counts(v, metas)
     ctx.notes["branches_per_sampler"] = per
     seen = set()
@@ -571,6 +609,8 @@ def run(ctx):
     ctx.notes["traces_per_sampler"] = {s: sum(1 for m in metas if m["sampler"] == s) for s in SAMPLERS}
     ctx.notes["traces_per_storage"] = {s: sum(1 for m in metas if m["storage"] == s) for s in ("mem", "sqlite", "journal")}
     ctx.notes["skipped"] = "CmaEsSampler (package cmaes is not installed)"
+    if ctx.violations:
+        return              # the verdict is out; self-tests need an accepted batch
     for t, m in list(zip(traces, metas))[:: max(1, len(traces) // 4)][:4]:
         ctx.sample({"sampler": m["sampler"], "storage": m["storage"], "events": t["ev"][:6]})
 
@@ -613,4 +653,6 @@ def run(ctx):
 def replay(ctx, data):
     sc = data["scenario"]
     traces, metas = execute([sc])
-    judge(ctx, [sc], traces, metas, "replay")
+    if traces:
+        judge(ctx, [sc], traces, metas, "replay")
+    check_timeouts(ctx)
